@@ -291,6 +291,26 @@ func (e *Engine) evalConvert(f *frame, x *ssa.Convert) Value {
 		if _, ok := x.Type().Underlying().(*types.Pointer); ok || isUnsafePointer(x.Type()) {
 			return a
 		}
+		// unsafe.Pointer -> uintptr: a number that orders pointers INTO ONE ALLOCATION correctly
+		// (allocation number * 2^32 + byte offset); nothing may be converted back (rejected above),
+		// and numbers of different allocations are only distinct, not meaningfully ordered.
+		if b, ok := x.Type().Underlying().(*types.Basic); ok && b.Kind() == types.Uintptr {
+			if q, ok := a.(Ptr); ok {
+				if q.l == nil {
+					return bv(uint64(q.off), 64)
+				}
+				n := norm(q)
+				if e.allocNo == nil {
+					e.allocNo = map[*Loc]uint64{}
+				}
+				id, seen := e.allocNo[n.l]
+				if !seen {
+					id = uint64(len(e.allocNo) + 1)
+					e.allocNo[n.l] = id
+				}
+				return bv(id<<32+uint64(n.off), 64)
+			}
+		}
 	case StringV:
 		if sl, ok := x.Type().Underlying().(*types.Slice); ok {
 			arr := newArrayLoc(sl.Elem(), len(t.s))
